@@ -381,4 +381,3 @@ func hashRounds(cs *Case) []byte {
 	return b.Bytes()
 }
 
-var syncers = map[string]hk.Gosyncer{}
